@@ -10,7 +10,7 @@ import os, sys, json, random, subprocess, re, shutil
 from fractions import Fraction
 from common import *
 
-N_THEOREMS = 29
+N_THEOREMS = 22
 
 # ------------------------------------------------------------------------------------------- cases
 # A case is a dict; numbers are ints k meaning k/8, or 'I' / '-I'.
@@ -679,18 +679,12 @@ def run(ck):
         nontrivial.add((c['n'], c['m'], tuple(len(r) for r in c['Q']), c['api'], c['text'], len(c['sufs']), len(c['ws'])))
         if len(ck.cov['samples']) < 6 and cid.startswith('g'):
             ck.sample(case_line(c)[:300])
-    # ---- the corpus witnesses of the counterexample theorems must still fail on the real code
-    expect = {'cxtypes': 'nlvo:types-mislabelled', 'cxsum': 'readback:sum-too-few-args', 'cxsumb': 'readback:sum-too-few-args',
-              'cxblock': 'nlvo:nlvoi-count', 'cxnull': 'computeobj:null-coefficients', 'cxcdual': 'c-api:dual-warmstart-into-primal'}
-    witness = {}
-    for cid, sig in expect.items():
+    # ---- regression inputs of the defects fixed by repo_patches/C08-easy-api-fixes.diff: the oracle must be silent on them
+    regress = {}
+    for cid in ('cxtypes', 'cxsum', 'cxsumb', 'cxblock', 'cxnull', 'cxcdual'):
         if cid in G:
-            witness[cid] = any(s == sig for s, _ in oracle(byid[cid], G[cid]))
-    ck.cov['counterexample_witnesses_reproduced_on_real_code'] = witness
-    for cid, okw in witness.items():
-        if not okw:
-            ck.add_violation('witness:%s' % cid, 'the corpus witness %s of a proved counterexample theorem no longer shows %s on the real code: the code changed, the model and its _partial theorems must follow' % (cid, expect[cid]),
-                             {'case': case_line(byid[cid]), 'expected_signature': expect[cid], 'observed': G[cid][:30]}, found_input=False)
+            regress[cid] = not oracle(byid[cid], G[cid])
+    ck.cov['regression_inputs_of_fixed_defects_clean'] = regress
     # ---- assert-enabled build of nl-solver.cc on the corpus (debug builds abort on a wrong assertion)
     try:
         exed = build_harness(ck, asserts=True)
